@@ -168,6 +168,7 @@ let verdict_names (v : n list) =
     | 8 -> "failed-complete-left-unrollbackable"
     | 9 -> "staged-change-orphaned-by-context-switch"
     | 10 -> "staged-change-stored-by-vid-statement"
+    | 11 -> "flags-changed-without-credential-command"
     | k -> "clause" ^ string_of_int k) v)
 
 let spec_case (case_line : string) (impl_line : string) =
